@@ -286,12 +286,28 @@ SignSplit(t) ==
   IF t # <<>> /\ t[1] \in {43, 45} THEN [neg |-> t[1] = 45, body |-> Tail(t)]
   ELSE [neg |-> FALSE, body |-> t]
 
+(* digit strings too long for the small range: the 61-bit range ends at 1152921504606846975 and      *)
+(* -1152921504606846976 (19 digits), so 20 or more significant digits are always outside it          *)
+RECURSIVE StripZeros(_)
+StripZeros(s) == IF Len(s) > 1 /\ s[1] = 48 THEN StripZeros(Tail(s)) ELSE s
+RECURSIVE DigitsGreater(_, _, _)      \* a > b for digit strings of equal length
+DigitsGreater(a, b, i) ==
+  IF i > Len(a) THEN FALSE
+  ELSE IF a[i] # b[i] THEN a[i] > b[i] ELSE DigitsGreater(a, b, i + 1)
+MaxIntDigits == <<49,49,53,50,57,50,49,53,48,52,54,48,54,56,52,54,57,55,53>>      \* 1152921504606846975
+MinIntDigits == <<49,49,53,50,57,50,49,53,48,52,54,48,54,56,52,54,57,55,54>>      \* 1152921504606846976
+OutOfIntRange(neg, digits) ==
+  LET d == StripZeros(digits)
+  IN Len(d) >= 20 \/ (Len(d) = 19 /\ DigitsGreater(d, IF neg THEN MinIntDigits ELSE MaxIntDigits, 1))
+
 ParseInt(s) ==
   LET sp == SignSplit(Trim(s))
   IN IF HasNonAscii(s) THEN DK("text-nonascii")
      ELSE IF AllDigits(sp.body)
           THEN LET n == DigitsVal(sp.body, 1, 0)
-               IN IF n < 0 THEN DK("int-range") ELSE V(IntV(IF sp.neg THEN -n ELSE n))
+               IN IF n >= 0 THEN V(IntV(IF sp.neg THEN -n ELSE n))
+                  ELSE IF OutOfIntRange(sp.neg, sp.body) THEN E({"Argument"})
+                  ELSE DK("int-range")
           ELSE E({"Argument"})
 
 (* position of the first '.' or 0 *)
